@@ -254,6 +254,8 @@ def units(tier, seed):
         out.append(Unit('table/%s' % e.__name__, table_unit(e, e.__name__), replay=table_replay(e), search=lambda seed, e=e: table_replay(e)({}),
                         clause='C10 tables', backend='native-ground'))
     from checks import foundation
+    from checks import hello
+    out.append(hello.unit(('K3',), 'C10 codes preserved inside a ClientHello'))
     return out + foundation.units(tier, seed, include_enum=False)
 
 
